@@ -289,6 +289,9 @@ macro_rules! family {
             pub type T = $T;
             pub const FAM: &str = <T as Fl>::FAM;
             pub const U: f64 = <T as Fl>::U;
+            /// smallest positive normal value and smallest subnormal of the scalar type
+            pub const MIN_POS: f64 = if <T as Fl>::U > 1e-10 { 1.1754943508222875e-38 } else { 2.2250738585072014e-308 };
+            pub const TINY_ABS: f64 = if <T as Fl>::U > 1e-10 { 1.401298464324817e-45 } else { 5e-324 };
             pub const HAS3A: bool = $has3a;
             pub const KMAX: i32 = $kmax;
             const TQ: &str = stringify!($Q);
@@ -828,7 +831,66 @@ macro_rules! family {
                     .boxed()
             }
 
+            // ------------------------------------------------------------------ (5) from_scaled_axis of tiny rotation vectors
+            /// words: three f64 bit patterns, the components of a rotation vector whose length is far below sqrt(MIN_POSITIVE)
+            /// up to 1e-6. Every finite rotation vector is a valid argument: the result is the unit quaternion (v/2, 1)
+            /// to first order, whatever happens to |v|^2 on the way (it underflows to zero or to a subnormal)
+            pub fn check_tiny_scaled_axis(w: &[u64], t: &mut Tally) -> Result<(), Fail> {
+                let v: [T; 3] = [T::from_f64(fin(w[0])), T::from_f64(fin(w[1])), T::from_f64(fin(w[2]))];
+                t.eval(1);
+                let vf = [v[0].to_f64(), v[1].to_f64(), v[2].to_f64()];
+                let len = (vf[0] * vf[0] + vf[1] * vf[1] + vf[2] * vf[2]).sqrt();
+                let l2t = (v[0] * v[0] + v[1] * v[1] + v[2] * v[2]).to_f64();
+                t.class(if len == 0.0 { "tiny:zero vector" } else if l2t == 0.0 { "tiny:|v|^2 underflows to 0" } else if l2t < MIN_POS { "tiny:|v|^2 subnormal" } else { "tiny:|v|^2 normal" });
+                if len > 0.0 && l2t < MIN_POS {
+                    t.nontrivial(mix(hash_str(FAM), mix(hash_str(VARIANT), fnv(&w[..3]))));
+                    if t.want_sample() {
+                        t.sample(json!({"family": FAM, "variant": VARIANT, "v": format!("{:?}", vf), "len": len}));
+                    }
+                }
+                let q = q_arr($Q::from_scaled_axis($V3::new(v[0], v[1], v[2])));
+                let ctx = || format!("v={:?} |v|={:e} (|v|^2 in the type: {:e}) -> q={:?}", vf, len, l2t, q);
+                if !q.iter().all(|x| x.is_finite()) {
+                    return Err(fail(TQ, "from_scaled_axis(tiny)", format!("not finite; {}", ctx())));
+                }
+                let n2 = q[0] * q[0] + q[1] * q[1] + q[2] * q[2] + q[3] * q[3];
+                if !((n2 - 1.0).abs() <= 8.0 * U) {
+                    return Err(fail(TQ, "from_scaled_axis(tiny)", format!("|q|^2 - 1 = {:e}; {}", n2 - 1.0, ctx())));
+                }
+                for i in 0..3 {
+                    // x = v_i / 2 to first order; as a component of a unit quaternion (w = 1) it is held to a few u absolutely:
+                    // when |v|^2 underflows to zero the documented result is IDENTITY, which is that close
+                    let want = 0.5 * vf[i];
+                    let tol = 8.0 * U + 2.0 * TINY_ABS;
+                    if !((q[i] - want).abs() <= tol) {
+                        return Err(fail(TQ, "from_scaled_axis(tiny)", format!("component {i} = {:e}, want v/2 = {:e} within {:e}; {}", q[i], want, tol, ctx())));
+                    }
+                }
+                Ok(())
+            }
+            pub fn strat_tiny() -> BoxedStrategy<Vec<u64>> {
+                let lo: f64 = if U > 1e-10 { -44.0 } else { -322.0 };
+                let comp = move || prop_oneof![
+                    6 => (any::<bool>(), lo..-6.0).prop_map(|(n, e)| if n { -(10f64.powf(e)) } else { 10f64.powf(e) }),
+                    1 => Just(0.0f64),
+                    1 => Just(-0.0f64),
+                ];
+                // components of similar magnitude (so that the length is not just the largest one) or independent
+                (comp(), comp(), comp(), any::<bool>(), 0.1f64..1.0, 0.1f64..1.0)
+                    .prop_map(|(a, b, c, similar, f1, f2)| if similar { vec![a.to_bits(), (a * f1).to_bits(), (-a * f2).to_bits()] } else { vec![a.to_bits(), b.to_bits(), c.to_bits()] })
+                    .boxed()
+            }
+
             pub fn subs<'a>(out: &mut Vec<SubCheck<'a>>) {
+                out.push(SubCheck::new(
+                    format!("scaled-axis-tiny/{}/{}", FAM, VARIANT),
+                    1,
+                    |env: &mut Env| {
+                        let n = env.cases(40_000, 20);
+                        env.prop("tiny", n, strat_tiny(), &check_tiny_scaled_axis);
+                    },
+                    check_tiny_scaled_axis,
+                ));
                 out.push(SubCheck::new(
                     format!("rot-ctor/{}/{}", FAM, VARIANT),
                     4,
